@@ -133,6 +133,9 @@ type TaskCtx struct {
 	FirstBadReason     string
 	FirstBadExec       uint64
 	ExecAtFault        uint64
+
+	// violations detected by oracle built-ins while the program runs
+	HostViol []Violation
 }
 
 const simKey = "starsim"
